@@ -105,7 +105,11 @@ pub fn exec_stage(sc: &Scenario, prop: &'static str) -> Report {
             r.probe_n("pty_bytes", b);
         }
         r.nontrivial = executed >= 3 && painted >= 2 && !r.inconclusive;
-        st.teardown();
+        // dropping what is left paints final frames: still the library under test
+        if let Err(p) = crate::common::call(|| st.teardown()) {
+            r.violate(&format!("{prop}.no_panic"), format!("dropping the remaining bars panicked: {p}"));
+            std::mem::forget(st);
+        }
         r
     });
     finish_report(res, out)
@@ -120,7 +124,8 @@ fn pick_w(rng: &mut Rng, small: bool) -> u64 {
             5 | 6 => 20,
             7 => 40,
             8 => 80,
-            _ => 200,
+            // (beyond 256: wider than any fixed-size scratch buffer one might be tempted to use)
+            _ => *rng.pick(&[200, 200, 300, 1000]),
         }
     }
 }
@@ -133,7 +138,7 @@ fn new_bar_op_tabs(rng: &mut Rng, kind: u64, id: usize) -> Op {
         .n(1)
         .n(10)
         .n(rng.below(5))
-        .n(*rng.pick(&[8, 0, 1, 2, 4, 13]))
+        .n(*rng.pick(&[8, 0, 1, 2, 4, 13, 8, 0, 1, 2, 4, 13, 33, 70]))
         .n(rng.below(24))
         .s(gen_template(rng, &tag, true))
         .s(gen_tabbed(rng, "F"))
@@ -172,7 +177,7 @@ fn bar_op(rng: &mut Rng, b: u64, w: usize, special: bool, fl: Flavor) -> Op {
     if fl == Flavor::C16 {
         // texts with tabs; tab width changes
         if rng.chance(1, 4) {
-            return Op::new("set_tab_width").n(b).n(*rng.pick(&[0, 1, 2, 4, 8, 8, 13]));
+            return Op::new("set_tab_width").n(b).n(*rng.pick(&[0, 1, 2, 4, 8, 8, 13, 0, 1, 2, 4, 8, 13, 33, 70]));
         }
         if rng.chance(1, 8) {
             return Op::new(if rng.chance(1, 2) { "snapshot_style" } else { "set_style_snapshot" }).n(b);
@@ -313,6 +318,68 @@ impl Check for TermCheck {
         if !multi {
             ops.push(if fl == Flavor::C16 { new_bar_op_tabs(rng, 9, 0) } else { new_bar_op(rng, 9, 0, 0, w, special) });
             nbars = 1;
+        }
+        if multi && hz > 0 && fl != Flavor::C16 && rng.chance(1, 12) {
+            // prelude: what a member has stored and what is on the screen drift apart while the
+            // limiter swallows the frames, then the member leaves (remove / drop) - with some of
+            // the steps left out at random
+            let t0 = "{obs}{msg}".to_string();
+            ops.push(Op::new("add").n(0).n(0).n(1).n(10).n(rng.below(5)).n(8).s(t0).s("fin").s("").s("xx"));
+            ops.push(new_bar_op(rng, 0, 0, 1, w, special));
+            ops.push(new_bar_op(rng, 0, 0, 2, w, special));
+            nbars = 3;
+            for b in 0..3 {
+                ops.push(Op::new("tick").n(b));
+            }
+            if rng.chance(3, 4) {
+                ops.push(Op::new("finish").n(1).n(rng.below(5)).s(""));
+            }
+            ops.push(Op::new("burn").n(2).n(rng.range(22, 40)));
+            if rng.chance(3, 4) {
+                ops.push(Op::new("set_message").n(0).n(0).s(if rng.chance(2, 3) { "" } else { "a\nb" }));
+            }
+            if rng.chance(3, 4) {
+                ops.push(Op::new(if rng.chance(3, 4) { "mp_remove" } else { "drop_all" }).n(0));
+            }
+            if rng.chance(3, 4) {
+                ops.push(Op::new("drop_all").n(1));
+            }
+            ops.push(Op::new("tick").n(2));
+        }
+        if multi && ops.is_empty() && sc.c("bottom") == 1 && rng.chance(1, 6) {
+            // prelude for bottom alignment: the region shrinks (blank padding rows take the place
+            // of the lines that went away), lines are printed, the bar that shrank leaves - with
+            // some of the steps left out at random
+            let two = format!("{{obs}}P0a{{msg}}\nP0b{{pos}}");
+            ops.push(Op::new("add").n(0).n(0).n(1).n(10).n(rng.below(5)).n(8).s(two).s("fin").s(""));
+            // (the second bar is there from the start, or only joins after the first one left)
+            let late = rng.chance(1, 2);
+            if !late {
+                ops.push(new_bar_op(rng, 0, 0, 1, w, special));
+            }
+            nbars = 2;
+            ops.push(Op::new("tick").n(0));
+            if !late {
+                ops.push(Op::new("tick").n(1));
+            }
+            if rng.chance(3, 4) {
+                ops.push(Op::new("finish").n(0).n(*rng.pick(&[2, 2, 0, 3])).s(""));
+            }
+            if rng.chance(3, 4) {
+                ops.push(Op::new("mp_println").s(gen_text(rng, w, "M", 2, special)));
+            }
+            if rng.chance(3, 4) {
+                ops.push(Op::new("drop_all").n(0));
+            }
+            if late {
+                ops.push(new_bar_op(rng, 0, 0, 1, w, special));
+            }
+            if late || rng.chance(3, 4) {
+                ops.push(Op::new("tick").n(1));
+            }
+            if rng.chance(3, 4) {
+                ops.push(Op::new("mp_println").s(gen_text(rng, w, "N", 2, special)));
+            }
         }
         let burst = matches!(fl, Flavor::C03 | Flavor::C04) && rng.chance(1, 2);
         // exhaust the refresh limiter early (its burst allowance is 20 frames): the interesting
